@@ -127,7 +127,7 @@ fn c01_abc(v: &View, use_drop: bool) -> Vec<Violation> {
             let accepted_at_begin = use_drop
                 && !how.is_tell()
                 && !how.is_blocking()
-                && matches!(o.res, Some(Res::ErrTimeout))
+                && matches!(o.res, Some(Res::ErrTimeout) | Some(Res::Abandoned))
                 && o.b_seq < limit
                 && o.b_seq > av.start_begin_seq().unwrap_or(u64::MAX)
                 && occupancy_ub(v, a, o.b_seq) < cap_of(v, a);
@@ -842,7 +842,8 @@ pub fn c06(v: &View) -> Vec<Violation> {
             for o in v.ops.iter().filter(|o| o.a == a && o.b_seq < s && matches!(o.src, Src::Client(_))) {
                 if let Some((how, mid, _)) = o.send() {
                     if how.is_ask() && v.handled_count(mid) == 0 {
-                        let failed = o.e_seq.map(|e| e < h2).unwrap_or(false) && o.res.as_ref().map(|r| r.is_err()).unwrap_or(false);
+                        // (a caller that abandoned its own call has nothing left to fail)
+                        let failed = o.e_seq.map(|e| e < h2).unwrap_or(false) && o.res.as_ref().map(|r| r.is_err() || *r == Res::Abandoned).unwrap_or(false);
                         if !failed {
                             out.push(viol("C06", "queued-ask-not-failed", format!("actor {a}: ask of message {mid} was outstanding at the kill, never handled, and ended as {:?}", o.res)));
                         }
